@@ -383,6 +383,31 @@ def sweep(tier: str) -> Sweep:
                         sw.note(["c05-initials", text, fmt, strict], "naming-initials")
                         sw.check(out[0] != "ok", "a name is accepted next to the initials of a different name", {"cls": "naming", "fmt": fmt, "text": text, "strict": strict, "clause": "initials", "kind": "naming-disagree"}, "rejected", str(out[1]))
                         sw.check(out[0] != "foreign", "a foreign exception", {"cls": "naming", "fmt": fmt, "text": text, "strict": strict, "clause": "family", "kind": "plain"}, "FormatterError", str(out[1]))
+    # the three abbreviations of a name stated together (flat, initials, vowel-less) and no full name: the vowel-less form
+    # is the flat form without its vowels, so a vowel-less field with another consonant skeleton contradicts the flat
+    # field and is refused - in every field order, in both modes, also when flat and initials agree with each other
+    import itertools as _it
+    pool = [["data", "pipeline"], ["dota", "pipelane"], ["delta", "park"], ["data", "engineer"], ["daily", "plan"], ["disk", "pool"], ["ab", "cd", "ef"], ["x1", "y2"]] + \
+           [n_ for n_ in (corr_fmt.rand_name(r) for _ in range(12)) if len(n_) >= 2 and all(w.isalpha() for w in n_)]
+    strip = lambda t: "".join(ch for ch in t if ch not in "aeiou")  # noqa: E731
+    rend = {}
+    for ws_ in pool:
+        try:
+            o_ = Naming.from_value(ws_)
+            rend[tuple(ws_)] = {d: o_.format(d) for d in ("%f", "%a", "%v")}
+        except Exception:  # noqa: BLE001
+            continue
+    for A, B in _it.permutations(list(rend), 2):
+        fa, fb = rend[A], rend[B]
+        if fa["%v"] != strip(fa["%f"]) or not fb["%v"] or fb["%v"] == fa["%v"] or not fa["%v"]:
+            continue
+        parts = {"%f": fa["%f"], "%a": fa["%a"], "%v": fb["%v"]}
+        for order in _it.permutations(("%f", "%a", "%v")):
+            fmt, text = " ".join(order), " ".join(parts[d] for d in order)
+            for strict in (False, True):
+                out = outcome(Naming, text, fmt, strict)
+                sw.note(["c05-abbrev3", text, fmt, strict], "naming-abbrev3")
+                sw.check(out[0] != "ok", "a flat name is accepted next to the vowel-less form of a different name", {"cls": "naming", "fmt": fmt, "text": text, "strict": strict, "clause": "abbreviations", "kind": "naming-disagree"}, "rejected", str(out[1]))
     return sw
 
 
